@@ -51,6 +51,7 @@ Definition frame_ok (g : graph) (k : nat) (f : frame) : Prop :=
   | FCacheGet _ _ body c => c < N /\ comp_kind g c /\ prog_ok k body = true
   | FRunEnd _ c => c < N /\ n_hinv (getn g c) = None
   | FArm _ c => c < N /\ n_hinv (getn g c) = None
+  | FOutAdd n => n < N
   | _ => True
   end.
 
@@ -140,6 +141,7 @@ Proof.
   - destruct H as [H1 [[H2 H3] H4]]. destruct (S c H1) as [S1 [_ S3]]. rewrite S1. repeat split; auto; try lia; try (apply S3; exact H3).
   - destruct H as [H1 H2]. destruct (S c H1) as [_ [S2 _]]. rewrite S2. split; [lia | exact H2].
   - destruct H as [H1 H2]. destruct (S c H1) as [_ [S2 _]]. rewrite S2. split; [lia | exact H2].
+  - lia.
 Qed.
 
 (** in-edge lists only shrink or stay *)
@@ -806,6 +808,23 @@ Proof.
       * intros n'. left. simpl. rewrite ?count_app, SpC by reflexivity. lia.
       * intros c'. left. simpl. rewrite ?count_app, SpC by reflexivity. lia.
     + injection H as E1 E2 E3. subst s1 st sp. simpl. closed_leaf Inv.
+  - (* FOutAdd *)
+    destruct (Nat.ltb n (length (s_nodes s))) eqn:Ln; [|discriminate]. apply Nat.ltb_lt in Ln.
+    unfold g_add_out_released in H. injection H as E1 E2 E3. subst s1 st sp. simpl.
+    assert (SpC : forall p, p FPhInv = false -> (forall x, p (FRelEnter x) = false) ->
+                  count p (concat ((if n_inv (getn (s_nodes s) n) then [[FPhInv]] else []) ++ (if is_nil (n_out (getn (s_nodes s) n)) then [[FRelEnter n]] else []))) = 0).
+    { intros p P1 P2. destruct (n_inv (getn (s_nodes s) n)), (is_nil (n_out (getn (s_nodes s) n))); simpl; rewrite ?P1, ?P2; reflexivity. }
+    eapply closed_transfer; [ | | | | | | | | | exact Inv];
+      [ same_cl_tac
+      | intros n' x' Hx'; left; refine ((_ : same_ins _ _) n' x' Hx'); same_ins_tac
+      | reflexivity | intros sl' _; left; reflexivity | reflexivity | | | | ].
+    + intros r' _. left. split; [repeat split|]. simpl. rewrite ?count_app, SpC by reflexivity. lia.
+    + intros f Hf. rewrite ?in_app_iff in Hf. destruct Hf as [Hf|[Hf|Hf]]; [left; right; apply in_app_iff; tauto | left; right; apply in_app_iff; tauto |].
+      right. destruct (n_inv (getn (s_nodes s) n)), (is_nil (n_out (getn (s_nodes s) n))); simpl in Hf;
+        repeat (destruct Hf as [<-|Hf]); try contradiction; simpl; rewrite ?length_setn; auto.
+    + intros n'. left. simpl. rewrite ?count_app, SpC by reflexivity. lia.
+    + intros c'. left. simpl. rewrite ?count_app, SpC by reflexivity. lia.
+  - (* FPhInv *) injection H as E1 E2 E3. subst s1 st sp. closed_leaf Inv.
 Qed.
 
 Lemma exhausted_cl : forall f, exhausted f = true -> (forall n, is_treg n f = false) /\ (forall c, is_end c f = false) /\ (forall r, is_clean r f = false).
@@ -877,6 +896,15 @@ Proof.
     + intros r' _. left. split; [repeat split|]. rewrite count_app. simpl. lia.
     + intros f Hf. apply in_app_iff in Hf. destruct Hf as [Hf|[<-|[]]]; [left; exact Hf | right].
       simpl. intros x [<-|[]]. rewrite length_setn. exact Ln.
+    + intros n'. left. rewrite count_app. simpl. lia.
+    + intros c'. left. rewrite count_app. simpl. lia.
+  - (* AddDependency outside a rerunner *)
+    simpl in H. destruct (Nat.ltb slot (length (s_slots s))) eqn:L; [|discriminate]. apply Nat.ltb_lt in L.
+    inversion H; subst; clear H. rewrite frames_spawn. unfold all_frames in *. simpl.
+    assert (Bo : slot_res s slot < length (s_nodes s)) by (destruct Inv as [_ [B _]]; destruct (B slot L) as [B1 _]; exact B1).
+    eapply closed_transfer; [apply same_cl_refl | intros n' x' Hx'; left; exact Hx' | reflexivity | intros sl' _; left; reflexivity | reflexivity | | | | | exact Inv].
+    + intros r' _. left. split; [repeat split|]. rewrite count_app. simpl. lia.
+    + intros f Hf. apply in_app_iff in Hf. destruct Hf as [Hf|[<-|[]]]; [left; exact Hf | right; exact Bo].
     + intros n'. left. rewrite count_app. simpl. lia.
     + intros c'. left. rewrite count_app. simpl. lia.
 Qed.
